@@ -173,6 +173,7 @@ let dispatch name =
     pres (fun o -> (match o.Obj.o_bases with b :: _ -> pqlist b.Obj.b_knots | [] -> pint 0); plist pqlist o.Obj.o_cps) (Exec.q_cubic_curve tol bt ts x tg)
   | "surface_interpolate" -> let tol = rq () in let bu = rbasis () in let bv = rbasis () in let us = rqlist () in let vs = rqlist () in
     let x = rlist rqlist in pres (fun o -> plist pqlist o.Obj.o_cps) (Exec.q_surface_interpolate tol bu bv us vs x)
+  | "obj_section" -> let o = robj () in let sels = rnatlist () in pobj (Exec.q_obj_section o sels)
   | _ -> out ("UNKNOWN " ^ name)
 
 let () =
